@@ -213,6 +213,12 @@ def library(cfg, flavour):
     return lib
 
 
+# link options a harness always needs
+HARNESS_LINK = {
+    "h_low": ("-Wl,--wrap=malloc,--wrap=free",),
+}
+
+
 def _harness_sources(name):
     """A harness is harness/<name>.cpp (+ harness/<name>_*.cpp) and harness/common/*."""
     srcs = []
@@ -227,6 +233,7 @@ def harness(name, cfg, flavour, defines=(), link=()):
     srcs = _harness_sources(name)
     if not srcs:
         raise BuildError("no such harness: " + name, "")
+    link = tuple(link) + tuple(x for x in HARNESS_LINK.get(name, ()) if x not in link)
     common = _walk(os.path.join(HARNESS, "common"))
     hh = _hash_files(srcs + common + [])[:12]
     dd = hashlib.sha1((" ".join(defines) + "|" + " ".join(link)).encode()).hexdigest()[:6]
@@ -238,8 +245,8 @@ def harness(name, cfg, flavour, defines=(), link=()):
             return exe
         # drop binaries of older harness versions
         for f in os.listdir(d):
-            if f.startswith(name + "-") and not f.endswith(".lock") and f != os.path.basename(exe) \
-                    and not f.endswith(".o") and f.split("-")[0] == name:
+            if f.startswith(name + "-") and not f.endswith(".lock") and not f.startswith(os.path.basename(exe)) \
+                    and f.split("-")[0] == name:
                 try:
                     os.remove(os.path.join(d, f))
                 except OSError:
